@@ -241,7 +241,7 @@ def run(ctx):
 
     # container subclasses with validating constructors, dataclasses inheriting a validating hook (see pv/special.py)
     from .. import special
-    cases = special.container_subclass_cases() + special.inherited_hook_cases() + special.protocol_cases() + special.attribute_tagged_cases() + special.tuple_layout_cases()
+    cases = special.container_subclass_cases() + special.inherited_hook_cases() + special.protocol_cases() + special.attribute_tagged_cases() + special.tuple_layout_cases() + special.unhashable_key_cases()
     monitors.install()
     for idx, (desc, ST, vals) in enumerate(cases):
         if idx % ctx.nshards != ctx.shard or not ctx.want('special', idx):
